@@ -630,6 +630,63 @@ func (w *dialogWorld) establishSubscribe(d *dlg) {
 	w.stats["dialogs_established_by_backend_subscribe"]++
 }
 
+// refreshSubscribe: the backend that holds the subscription refreshes it (in-dialog SUBSCRIBE,
+// both tags) and the notifier answers. Returns the times before the answer was sent and after
+// it was seen at the backend, or ok = false.
+func (w *dialogWorld) refreshSubscribe(d *dlg) (t0, t1 time.Time, ok bool) {
+	g := w.g
+	sv := w.Svcs[d.svc]
+	if d.backend < 0 || d.backend >= len(sv.BeUDP) {
+		return
+	}
+	be := sv.BeUDP[d.backend]
+	hop := w.Hops[g.R.Intn(len(w.Hops))]
+	id := w.nextID("rsub")
+	m := &sip.Msg{Start: "SUBSCRIBE sip:notifier@ext.example SIP/2.0"}
+	m.Headers = []sip.Header{
+		{Name: "Via", Value: fmt.Sprintf("SIP/2.0/UDP %s:%d;branch=z9hG4bKvf%s", be.IP(), wire.BackendPort, id)},
+		{Name: "Route", Value: fmt.Sprintf("<sip:%s:%d;lr>", hop.IP, wire.NextHopPortA)},
+		{Name: "Max-Forwards", Value: "70"},
+		{Name: "From", Value: "<" + d.a.uri + ">;tag=" + d.a.tag},
+		{Name: "To", Value: "<" + d.b.uri + ">;tag=" + d.b.tag},
+		{Name: "Call-ID", Value: d.callID},
+		{Name: "CSeq", Value: "2 SUBSCRIBE"},
+		{Name: "Event", Value: "presence"},
+		{Name: "X-Vf", Value: id},
+		{Name: "Content-Length", Value: "0"}}
+	be.Send(fmt.Sprintf("%s:%d", sv.IP, sv.UDP), m.Bytes(), id)
+	obs, seen := w.Net.WaitCase(id, func(o []*wire.Obs) bool { return len(o) >= 1 }, w.BarrierWait)
+	if !seen || obs[0].Msg == nil {
+		return
+	}
+	rid := id + "ok"
+	resp := &sip.Msg{Start: "SIP/2.0 200 OK"}
+	vias := obs[0].Msg.List("via")
+	if len(vias) == 1 {
+		vias = append([]string{fmt.Sprintf("SIP/2.0/UDP %s:%d;branch=z9hG4bKnotifier%s", sv.IP, sv.UDP, id)}, vias...)
+	}
+	for _, v := range vias {
+		resp.Headers = append(resp.Headers, sip.Header{Name: "Via", Value: v})
+	}
+	resp.Headers = append(resp.Headers,
+		sip.Header{Name: "From", Value: "<" + d.a.uri + ">;tag=" + d.a.tag},
+		sip.Header{Name: "To", Value: "<" + d.b.uri + ">;tag=" + d.b.tag},
+		sip.Header{Name: "Call-ID", Value: d.callID},
+		sip.Header{Name: "CSeq", Value: "2 SUBSCRIBE"})
+	if d.subExpires != "-" && d.subExpires != "" {
+		resp.Headers = append(resp.Headers, sip.Header{Name: "Expires", Value: d.subExpires})
+	}
+	resp.Headers = append(resp.Headers, sip.Header{Name: "X-Vf", Value: rid}, sip.Header{Name: "Content-Length", Value: "0"})
+	t0 = time.Now()
+	hop.UDP[wire.NextHopPortA].Send(fmt.Sprintf("%s:%d", sv.IP, sv.UDP), resp.Bytes(), rid)
+	robs, seen := w.Net.WaitCase(rid, func(o []*wire.Obs) bool { return len(o) >= 1 }, w.BarrierWait)
+	t1 = time.Now()
+	if !seen || robs[0].Ep != be.Name {
+		return
+	}
+	return t0, t1, true
+}
+
 // probe sends one in-dialog request and judges where it lands.
 func (w *dialogWorld) probe(d *dlg) {
 	g := w.g
@@ -755,7 +812,7 @@ func scenarioPinTime() int {
 			break
 		}
 		var evs []ptEvent
-		plans := []string{"early+late", "early+late", "ringing-then-expires", "bye", "bye", "bye", "notify-terminated", "notify-active", "notify-reason", "expires-larger", "expires-smaller", "early+late"}
+		plans := []string{"early+late", "early+late", "ringing-then-expires", "bye", "bye", "bye", "notify-terminated", "notify-active", "notify-reason", "expires-larger", "expires-smaller", "early+late", "subscribe-refresh", "subscribe-refresh"}
 		for i := 0; i < perBatch; i++ {
 			d := &ptDialog{}
 			d.n, d.svc, d.backend, d.kind = i, g.R.Intn(len(w.Svcs)), -1, "invite"
@@ -770,6 +827,11 @@ func scenarioPinTime() int {
 				d.ringFirst = plan == "ringing-then-expires"
 			case "expires-smaller":
 				d.expires = 1
+			}
+			if plan == "subscribe-refresh" {
+				// a subscription whose answers promise nothing: lifetime = dialog timeout, renewed by
+				// the answer to the refresh
+				d.kind, d.subExpires, d.expires, d.life = "subscribe", "-", 0, timeout
 			}
 			if strings.HasPrefix(plan, "notify") {
 				d.kind = "subscribe"
@@ -797,6 +859,12 @@ func scenarioPinTime() int {
 			case "bye":
 				evs = append(evs, ptEvent{at: t0 + frac(10, 40), d: d, what: "bye", arg: fmt.Sprint(nextByeStatus())})
 				evs = append(evs, ptEvent{at: t0 + frac(45, 60), d: d, what: "probe", arg: plan})
+			case "subscribe-refresh":
+				rf := frac(50, 60)
+				evs = append(evs, ptEvent{at: t0 + rf, d: d, what: "refresh"})
+				// beyond the lifetime the first answer gave, inside the one the refresh gave
+				evs = append(evs, ptEvent{at: t0 + rf + frac(50, 57), d: d, what: "probe", arg: plan + "/renewed"})
+				evs = append(evs, ptEvent{at: t0 + rf + d.life + time.Duration(500+g.R.Intn(500))*time.Millisecond, d: d, what: "probe", arg: plan + "/late"})
 			case "notify-terminated":
 				evs = append(evs, ptEvent{at: t0 + frac(10, 40), d: d, what: "notify", arg: "terminated"})
 				evs = append(evs, ptEvent{at: t0 + frac(45, 60), d: d, what: "probe", arg: plan})
@@ -920,6 +988,22 @@ func (w *dialogWorld) ptExec(e ptEvent) {
 		} else {
 			d.ended = true
 		}
+	case "refresh":
+		if d.ended || d.backend < 0 {
+			return
+		}
+		if time.Since(d.pinDone) > d.life*8/10 {
+			d.ended = true // too late to refresh safely inside the first lifetime (loaded machine)
+			return
+		}
+		a, b, ok := w.refreshSubscribe(&d.dlg)
+		if !ok {
+			d.ended = true
+			w.run.Inconclusive(1)
+			return
+		}
+		d.pinStart, d.pinDone = a, b
+		w.stats["subscriptions_refreshed"]++
 	case "notify":
 		if d.ended || d.backend < 0 {
 			return
